@@ -133,6 +133,19 @@ Example default_closure_lexical :
   forallb (fun m => match fst (run m 60 w_default_closure), fst (run m 60 w_default_shares) with
                     | Ok (VInt 1), Ok (VInt 7) => true | _, _ => false end) [Slip; Ref; Chk] = true.
 Proof. vm_compute; reflexivity. Qed.
+(* the init form of a let* / let / do* binding is evaluated before the variable exists: a closure it makes over the NAME
+   of the variable being bound reads and assigns the enclosing variable (10; 1 and the closure as the new value), in
+   every mode, inside the guard *)
+Definition w_letstar_own_read :=
+  [ELet [("n", I 10)] [ELetStar [("n", ELambda [] [EVar "n"])] [EFuncall (EVar "n") []]]].
+Definition w_letstar_own_write :=
+  [ELet [("c", I 0)] [ELetStar [("c", ELambda [] [ESetq [("c", EPrim PInc [EVar "c"])]])] [EFuncall (EVar "c") []]; EVar "c"]].
+Definition w_dostar_own_read :=
+  [ELet [("n", I 10)] [EDo true [("n", ELambda [] [EVar "n"], None)] ET [EFuncall (EVar "n") []] []]].
+Example init_closure_own_name :
+  forallb (fun m => match fst (run m 60 w_letstar_own_read), fst (run m 60 w_letstar_own_write), fst (run m 60 w_dostar_own_read) with
+                    | Ok (VInt 10), Ok (VInt 1), Ok (VInt 10) => true | _, _, _ => false end) [Slip; Ref; Chk] = true.
+Proof. vm_compute; reflexivity. Qed.
 (* the defaults proceed like the bindings of let*: the default form in the scope built so far, the parameter in a new
    scope that holds only it *)
 Lemma defaults_like_letstar : forall m ev st sc bnd x e os, existsb (String.eqb x) bnd = false ->
